@@ -55,7 +55,7 @@ def _par(rng):
     return rng.choice(["", " ", "\n"]) + s + rng.choice(["", " ", "\t"])
 
 def generate(rng, tier):
-    n = 900 if tier == "quick" else 15000
+    n = 900 if tier == "quick" else 40000
     cases = [{"vb": "0 0 abc 10", "par": None, "dw": F(100), "dh": F(100), "family": "non-numeric-witness"}]
     for _ in range(n):
         k = rng.random()
